@@ -136,9 +136,13 @@ def run(out, drv, info):
     r = rng_for(out.seed, 'C10')
     out.rule = ('cases = (min,max) from valid/aligned, valid/unaligned and invalid pairs × random 16-byte key × stream (sizes around 0, max, 2·max, '
                 'k·max; random/zero/periodic) × segmentation (single, equal, 1-byte, with empty pieces, random); non-trivial = ≥ 3 chunks and ≥ 2 pieces; '
-                'distinct = hash of (params,key,pieces)')
+                'distinct = hash of (params,key,pieces); handover phase: about half of the valid multi-piece cases re-run through a producer drawn from '
+                '{bytes, fresh bytearray, fresh memoryview | readinto into one scratch buffer, reused view, reused bytearray, ring of two buffers, '
+                'buffer wiped / randomised / emptied when the next piece is requested, per-piece mix} + real files read with readinto(); '
+                'non-trivial there = a reusing producer that rewrote >= 1 yielded buffer and >= 2 chunks')
     out.assumptions = ['the keyed CLMUL hash is an arbitrary function in every theorem; its executable model is validated here against the rebuilt C++',
-                       'CPU PCLMULQDQ, CPython bytearray slicing']
+                       'CPU PCLMULQDQ, CPython bytearray slicing',
+                       'a producer rewrites a buffer it yielded only when it is asked for the next piece or closed (iterator protocol), never concurrently']
     cases = []
     # corpus first (minimised past failures)
     corpus = [
@@ -271,6 +275,18 @@ def run(out, drv, info):
             out.violation('chunker:depends-on-earlier-calls', 'a chunker object reused for an interleaved / abandoned call produces different chunks than a fresh one',
                           {'kind': 'reuse', 'min': mn, 'max': mx, 'key_a': key, 'pieces_a': [p.hex() for p in ps], 'key_b': key2, 'pieces_b': [p.hex() for p in ps2],
                            'fresh_b': fresh_b, 'reused_b': got_b, 'fresh_a': fresh_a, 'reused_a': got_a, 'abandoned': abandon})
+    # ---- independence from HOW the pieces are handed over: producers that reuse the buffers they yielded (readinto idiom, ring of
+    #      buffers, buffers wiped / emptied / rewritten when the next piece is requested, mixed with immutable pieces).
+    #      Oracle: chunks concatenate to the bytes that were in each buffer when it was yielded, and equal the chunks for the same
+    #      pieces handed over as immutable bytes.  Tie: Lean `chunkAllHanded` (op chunk.reuse) on the recorded now / later contents.
+    from ..impl import c10_producers as _hp
+    import shutil
+    scratch = WORK / str(os.getpid()) / 'c10'
+    try:
+        _hp.handover_phase(out, drv, cases, impl, valid=valid, impl_chunks=impl_chunks, bounds_oracle=direct_oracle,
+                           rng=rng_for(out.seed, 'C10-handover'), quick=quick, work=scratch)
+    finally:
+        shutil.rmtree(WORK / str(os.getpid()), ignore_errors=True)
     # ---- memory safety: ASan on recorded next_cut calls with exact-size heap buffers; model's verdict compared per call
     if asan_calls:
         calls = [(mn, mx, key, fin, buf) for mn, mx, key, fin, buf, _ in asan_calls]
@@ -336,5 +352,14 @@ def replay(path, drv):
         got_b = [len(bytes(c)) for c in ch(iter(pb), params=bytes.fromhex(rp['key_b']))]
         print('reused object:', got_b[:12], 'fresh object:', rp['fresh_b'][:12])
         return 1 if got_b != rp['fresh_b'] else 0
+    if rp.get('kind') in ('handover', 'handover-file'):
+        from ..impl import c10_producers as _hp
+        import shutil
+        try:
+            bad = _hp.replay_handover(rp, impl_chunks, direct_oracle, WORK / str(os.getpid()) / 'c10')
+        finally:
+            shutil.rmtree(WORK / str(os.getpid()), ignore_errors=True)
+        print('oracle:', bad)
+        return 1 if bad else 0
     print('replay kind not supported:', rp.get('kind'))
     return 2
